@@ -143,36 +143,42 @@ def getImplicitMovementLabel (scriptName : String) (i : Nat) : String := s!"{scr
 /-- `getMovementsKey` -/
 def getMovementsKey (ms : List Tok) : String := String.join (ms.map fun m => m.lit ++ ":")
 
+/-- One iteration of `addImplicitTexts`. -/
+def addTextStep (s : PState) (t : ImpText) : PState :=
+  let key := (t.text.lit, t.stringType)
+  match s.inlineTextsSet.lookup key with
+  | some label => { s with patches := s.patches ++ [((t.cmdId, t.argPos), label)] }
+  | none =>
+    let n := lookupD s.inlineTextCounts t.scriptName
+    let label := getImplicitTextLabel t.scriptName n
+    { s with patches := s.patches ++ [((t.cmdId, t.argPos), label)],
+             inlineTextCounts := setCount s.inlineTextCounts t.scriptName (n + 1),
+             inlineTextsSet := (key, label) :: s.inlineTextsSet,
+             inlineTexts := s.inlineTexts ++
+               [{ name := label, value := t.text.lit, tok := t.text, stringType := t.stringType,
+                  isGlobal := false }] }
+
 /-- `addImplicitTexts` -/
 def addImplicitTexts (texts : List ImpText) : PM Unit :=
-  texts.forM fun t => modify fun s =>
-    let key := (t.text.lit, t.stringType)
-    match s.inlineTextsSet.lookup key with
-    | some label => { s with patches := s.patches ++ [((t.cmdId, t.argPos), label)] }
-    | none =>
-      let n := lookupD s.inlineTextCounts t.scriptName
-      let label := getImplicitTextLabel t.scriptName n
-      { s with patches := s.patches ++ [((t.cmdId, t.argPos), label)],
-               inlineTextCounts := setCount s.inlineTextCounts t.scriptName (n + 1),
-               inlineTextsSet := (key, label) :: s.inlineTextsSet,
-               inlineTexts := s.inlineTexts ++
-                 [{ name := label, value := t.text.lit, tok := t.text, stringType := t.stringType,
-                    isGlobal := false }] }
+  modify fun s => texts.foldl addTextStep s
+
+/-- One iteration of `addImplicitMovements`. -/
+def addMovementStep (s : PState) (m : ImpMovement) : PState :=
+  let key := getMovementsKey m.movements
+  match s.inlineMovementsSet.lookup key with
+  | some label => { s with patches := s.patches ++ [((m.cmdId, m.argPos), label)] }
+  | none =>
+    let n := lookupD s.inlineMovementCounts m.scriptName
+    let label := getImplicitMovementLabel m.scriptName n
+    { s with patches := s.patches ++ [((m.cmdId, m.argPos), label)],
+             inlineMovementCounts := setCount s.inlineMovementCounts m.scriptName (n + 1),
+             inlineMovementsSet := (key, label) :: s.inlineMovementsSet,
+             inlineMovements := s.inlineMovements ++
+               [{ tok := m.cmdTok, name := label, cmds := m.movements, scope := .LOCAL }] }
 
 /-- `addImplicitMovements` -/
 def addImplicitMovements (ms : List ImpMovement) : PM Unit :=
-  ms.forM fun m => modify fun s =>
-    let key := getMovementsKey m.movements
-    match s.inlineMovementsSet.lookup key with
-    | some label => { s with patches := s.patches ++ [((m.cmdId, m.argPos), label)] }
-    | none =>
-      let n := lookupD s.inlineMovementCounts m.scriptName
-      let label := getImplicitMovementLabel m.scriptName n
-      { s with patches := s.patches ++ [((m.cmdId, m.argPos), label)],
-               inlineMovementCounts := setCount s.inlineMovementCounts m.scriptName (n + 1),
-               inlineMovementsSet := (key, label) :: s.inlineMovementsSet,
-               inlineMovements := s.inlineMovements ++
-                 [{ tok := m.cmdTok, name := label, cmds := m.movements, scope := .LOCAL }] }
+  modify fun s => ms.foldl addMovementStep s
 
 def addImplicitData (d : ImpData) : PM Unit := do
   addImplicitTexts d.texts
